@@ -20,7 +20,9 @@ VERIF = os.path.dirname(os.path.dirname(os.path.abspath(__file__)))
 SPEC = os.path.join(VERIF, "spec")
 HARNESS = os.path.join(VERIF, "harness")
 WORK = os.path.join(VERIF, "work")
-EVID = os.path.join(VERIF, "evidence")
+# VERIF_OUT redirects evidence and replays (used when a check is run against a seeded change, so that
+# the committed evidence of the unchanged tree is not overwritten)
+EVID = os.environ.get("VERIF_OUT") or os.path.join(VERIF, "evidence")
 REPLAYS = os.path.join(EVID, "replays")
 VH = os.path.join(HARNESS, "target", "debug", "vh")
 TLA_JAR = "/opt/veriftools/tla/tla2tools.jar"
